@@ -46,6 +46,9 @@ var exprPool = []string{
 var urnRefs = []string{"@contact.urn", "@urns.tel", "@contact", "@contact.urns", "@(format_urn(contact.urn))", "@input.urn", "@parent.urns.tel", "@child.urns", "@urns",
 	"@(urn_parts(contact.urn).path)", "@(default(urns.facebook, urns.telegram))", "@run", "@(json(contact.urns))", "@parent.contact.urn", "@(contact.urns[0])"}
 var parentRefs = []string{"@parent", "@parent.results.color", "@parent.contact.name", "@parent.fields.age", "@parent.status", "@parent.results", "@parent.run.uuid", "@parent.flow.name", "@(json(parent))", "@parent.results.answer.category"}
+// ExprPool returns the generator's stock of expressions (for batteries that evaluate all of them).
+func ExprPool() []string { return exprPool }
+
 var webhookRefs = []string{"@webhook", "@webhook.json", "@webhook.json.ok", "@webhook.json.count", "@webhook.status", "@webhook.json.name", "@webhook.headers", "@(json(webhook))", "@webhook.json.items[0].tag"}
 var legacyRefs = []string{"@legacy_extra", "@legacy_extra.count", "@legacy_extra.name", "@legacy_extra.ok"}
 
